@@ -363,3 +363,40 @@ def r10(ctx):
             aliased = [o for o in oa.returns if o.is_ext]
             ctx.check(not aliased, fi, f"{name} returns a freshly allocated array (not one of its arguments)", role=f"fresh-result:{name}",
                       expected="fresh result", found=", ".join(map(str, aliased)))
+
+
+@rule("C02", "R11", "FLOW", "the optimiser entry point returns the ADMM solver's result for the caller's S, lambda, W, N and step parameters on every path", floor=3)
+def r11(ctx):
+    """No shortcut may bypass the block-Toeplitz ADMM iteration (inv(S) is the *unconstrained* optimum), and every parameter of the
+    entry point reaches the solver under its own name."""
+    ana = ctx.ana
+    fi = ana.func("admm.front_end.admm_optimize_theta")
+    b = ana.builder(fi, no_inline=ana.known)
+    rt = b.return_term()
+    solver = ana.func(S_ + "run_admm_optimization").qualname
+    pieces = tm.pieces_of(rt)
+    for g, v in pieces:
+        theta = v.kwarg("theta") if isinstance(v, App) and v.fn.endswith("results.ADMMResult") else None
+        if theta is None and isinstance(v, App) and v.fn.endswith("results.ADMMResult") and v.args:
+            theta = v.args[0]
+        ok = isinstance(theta, App) and theta.fn == solver and len(theta.args) == 2
+        ctx.check(ok, fi, "the result is ADMMResult(theta = run_admm_optimization(arguments, S))" + ("" if g == tm.TRUE else f" also when {g}"),
+                  role="entry:solver" + ("" if g == tm.TRUE else f":{str(g)[:40]}"), expected=f"ADMMResult(theta={solver.split('.')[-1]}(ADMMArguments(...), S))",
+                  found=str(v)[:160])
+        if not ok:
+            continue
+        a, S = theta.args
+        ctx.check(S == Sym(fi.params[0]), fi, "the solver receives the caller's covariance unchanged", role="entry:covariance", expected=fi.params[0], found=str(S)[:80])
+        okc = isinstance(a, App) and a.fn.endswith("arguments.ADMMArguments")
+        if not ctx.check(okc, fi, "the solver's argument bundle is an ADMMArguments built here", role="entry:bundle", found=str(a)[:100]):
+            continue
+        cls = ana.prog.cls("containers.arguments.ADMMArguments")
+        names = [n for n in cls.fields if n in fi.params]
+        got = dict(a.kw)
+        init = cls.methods.get("__init__")
+        if a.args and init is not None:
+            for p_, x in zip(init.own_params[1:], a.args):
+                got.setdefault(p_, x)
+        wrong = [n for n in names if got.get(n) != Sym(n)]
+        ctx.check(not wrong and len(names) >= 8, fi, f"every solver setting is the entry point's parameter of the same name ({len(names)} fields)",
+                  role="entry:plumbing", expected=", ".join(f"{n}={n}" for n in names), found=", ".join(f"{n}={got.get(n)}" for n in wrong)[:160])
